@@ -24,6 +24,22 @@ not a hash comparison -/
 theorem accepted_iff_same_nameless_form (f g : Alpha.NF) (h : Alpha.alphaEq f g = true) :
     Alpha.toDB [] f = Alpha.toDB [] g := Alpha.eqb_eq' _ _ h
 
+/-- acceptance is symmetric and transitive (with `roundtrip_refl`: an equivalence relation), so
+accepted round trips compose: parse → unparse → parse → unparse … never drifts -/
+theorem roundtrip_symm (f g : Alpha.NF) (h : Alpha.alphaEq f g = true) : Alpha.alphaEq g f = true := by
+  have e := Alpha.eqb_eq' _ _ h
+  unfold Alpha.alphaEq; rw [← e]; exact Alpha.eqb_refl_aux _
+
+theorem roundtrip_trans (f g k : Alpha.NF) (h1 : Alpha.alphaEq f g = true) (h2 : Alpha.alphaEq g k = true) :
+    Alpha.alphaEq f k = true := by
+  have e1 := Alpha.eqb_eq' _ _ h1
+  have e2 := Alpha.eqb_eq' _ _ h2
+  unfold Alpha.alphaEq; rw [e1, e2]; exact Alpha.eqb_refl_aux _
+
+/-- acceptance is exactly equality of nameless forms -/
+theorem accepted_iff (f g : Alpha.NF) : Alpha.alphaEq f g = true ↔ Alpha.toDB [] f = Alpha.toDB [] g :=
+  ⟨Alpha.eqb_eq' _ _, fun e => by unfold Alpha.alphaEq; rw [e]; exact Alpha.eqb_refl_aux _⟩
+
 /-! non-vacuity: a re-parse that only renames bound variables is accepted; one that loses a
 quantifier (the free `<start>` capture described in DESIGN.md §9 #8) is rejected -/
 def f1 : Alpha.NF := .all ["v"] "start" (.atom 1 ["v", "start"])
